@@ -65,6 +65,16 @@ if OBJ:
         def add_constraint(self, a, b, c): self.cons.append((a, b, c))
         def prove(self): pass
     sys.modules["pysnark.nobackend"] = _Rec()
+LATE = %r
+if LATE:
+    # the program imports a helper module of the package that does not need the runtime, THEN decides on the backend
+    # (sets, changes or removes PYSNARK_BACKEND in os.environ), then imports the runtime: the runtime reads the variable then
+    import os
+    importlib.import_module(LATE[0])
+    if LATE[1] is None:
+        os.environ.pop("PYSNARK_BACKEND", None)
+    else:
+        os.environ["PYSNARK_BACKEND"] = LATE[1]
 FIRST = %r
 if FIRST:
     # the first pysnark module the program imports is a library module (it imports the runtime itself): the selection is the same
@@ -136,12 +146,15 @@ def run_case(cfg):
     envv.update({"PYTHONPATH": os.pathsep.join(paths) + core.COVPATH, "PYTHONDONTWRITEBYTECODE": "1", "PYTHONHASHSEED": str(cfg["hashseed"]) if "hashseed" in cfg else core.hashseed_for(cfg),
                  "QAPTOOLS_BIN": (os.path.join(backends.SHIMS, "qapbin_noexec") if load["qaptools"] == "noexec" else
                                   os.path.join(backends.SHIMS, "qapbin")) if load["qaptools"] else "/nonexistent-qaptools-dir"})
-    if env is not None:
+    if cfg.get("late"):
+        if cfg.get("env0") is not None:
+            envv["PYSNARK_BACKEND"] = cfg["env0"]      # what the shell had set; the program overrides it before importing the runtime
+    elif env is not None:
         envv["PYSNARK_BACKEND"] = env
     import tempfile, shutil
     tmp = tempfile.mkdtemp(prefix="verif-c19-")
     try:
-        r = subprocess.run([sys.executable, "-c", CHILD % (bool(cfg.get("interactive")), [MOD[n] for n in pre], cfg.get("object"), cfg.get("first"), IFACE)], cwd=tmp, env=envv,
+        r = subprocess.run([sys.executable, "-c", CHILD % (bool(cfg.get("interactive")), [MOD[n] for n in pre], cfg.get("object"), [cfg["late"], cfg["env"]] if cfg.get("late") else None, cfg.get("first"), IFACE)], cwd=tmp, env=envv,
                            capture_output=True, text=True, timeout=120, start_new_session=True)
     finally:
         shutil.rmtree(tmp, ignore_errors=True)
@@ -154,7 +167,8 @@ def run_case(cfg):
     desc = "PYSNARK_BACKEND=%r, pre-imported %r, loadable %r%s%s" % (env, pre, sorted(k for k, v in load.items() if v is True),
                                                                     ", qaptools executables present but not executable" if load["qaptools"] == "noexec" else "",
                                                                   (", interactive session (get_ipython defined)" if cfg.get("interactive") else "") +
-                                                                  (", first pysnark import is %s" % cfg["first"] if cfg.get("first") else ""))
+                                                                  (", first pysnark import is %s" % cfg["first"] if cfg.get("first") else "") +
+                                                                  (", set in os.environ after importing %s (the shell had %r)" % (cfg["late"], cfg.get("env0")) if cfg.get("late") else ""))
     if cfg.get("object"):
         if res is None:
             return "%s, backend object (%s) in sys.modules: the runtime failed to start: %s" % (desc, cfg["object"], (r.stderr.strip().splitlines() or ["?"])[-1]), info
@@ -233,6 +247,13 @@ def all_configs():
                 k += 1
                 if k % 4 == 0 or first == "pysnark.poseidon_hash" and load["flatbuffers"]:
                     out.append({"env": env, "pre": [], "load": load, "first": first})
+    k = 0
+    for env in ENVS:
+        for env0 in (None, "nobackend", "zkinterface", "bogus"):
+            for late in ("pysnark", "pysnark.poseidon_constants", "pysnark.gmpy"):
+                k += 1
+                if env0 != env and k % 3 == 0:
+                    out.append({"env": env, "env0": env0, "late": late, "pre": [], "load": loads[2 + 4 * (k % 2)]})
     for env in (None, "snarkjs", "bogus", "nobackend"):
         for kind in ("falsy", "truthy"):
             out.append({"env": env, "pre": [], "load": loads[2], "object": kind})
